@@ -111,7 +111,12 @@ class World:
         for d, p in ((self.rule_params, 0.3), (self.mes_params, 0.3)):
             if rng.random() < p:
                 d.update(self.own_keys(rng, rng.random() < 0.7))
-        self.payment = [{self.projs[n]: core.to_num(F(1, 2) if n in b else F(0)) for n in names} for b in case.ballots]
+        # payment functions as callers have them: exact fractions, ints, and floats that are no multiple of any power of ten (the
+        # shares a solver or a division leaves behind); drawn by a generator of their own, the other draws keep their seeds
+        pr = random.Random((getattr(case, "seed", 0) or 0) ^ 0x9A7)
+        pay_pool = [F(1, 2), F(1, 2), F(1, 3), 1, 0.5, 1 / 3, 0.1, 2 / 7, 0.30000000000000004, 1.0000000000000002]
+        self.payment = [{self.projs[n]: (core.to_num(x) if isinstance(x, F) else x) for n in names
+                         for x in [(pr.choice(pay_pool) if n in b else pr.choice([F(0), F(0), 0, 0.0]))]} for b in case.ballots]
         self.sat_profile = None
         self.details = None
         self.variant = variant
